@@ -40,11 +40,14 @@ type sCmd struct {
 	// CallIgnore: `ignore_error: true` written on a `task:` command.  Task does not read that key on task
 	// calls (only on shell commands and on tasks), so it must change nothing: it is not part of the model's program.
 	CallIgnore bool `json:"call_ignore,omitempty"`
+	// Ref: under which of the callee's names the entry refers to it (rendering only, see refName)
+	Ref int `json:"ref,omitempty"`
 }
 
 type sDep struct {
 	Task int `json:"task"`
 	Var  int `json:"var"`
+	Ref  int `json:"ref,omitempty"` // rendering only, see refName
 }
 
 type sTask struct {
@@ -59,11 +62,21 @@ type sTask struct {
 	PrecondOk   bool   `json:"precond_ok"`
 	UpToDate    bool   `json:"up_to_date,omitempty"`
 	Prompt      bool   `json:"prompt,omitempty"`
+	// Rendering only — the model's program does not know how a task is named:
+	// Aliases: the task has that many aliases (`aliases: [t<i>a, t<i>b]`); Wild: it is a wildcard task (`t<i>-*`)
+	// that every reference calls by a concrete name (`t<i>-x`, `t<i>-y`, `t<i>-z`).  Which name a reference
+	// uses is the reference's Ref.  Every activation must behave as if the task had been called by its key.
+	Aliases int  `json:"aliases,omitempty"`
+	Wild    bool `json:"wild,omitempty"`
 }
 
 type schedCase struct {
 	Tasks    []sTask `json:"tasks"`
 	Calls    []int   `json:"calls"`
+	CallRefs []int   `json:"call_refs,omitempty"` // rendering only: the name each command-line call uses (refName)
+	// Inc (rendering only): the tasks live in an included Taskfile (namespace `n`) and their own names there
+	// contain ':' and all end in the same segment (`t3:k`, `t4:k`, aliases `t3a:k`, wildcard `t3:k-*`)
+	Inc bool `json:"inc,omitempty"`
 	Cap      int     `json:"cap"` // 0 = unlimited
 	Parallel bool    `json:"parallel,omitempty"`
 	Force    bool    `json:"force,omitempty"`
@@ -92,13 +105,86 @@ func (g *gateWriter) Write(p []byte) (int, error) {
 	return len(p), nil
 }
 
-func tname(i int) string { return fmt.Sprintf("t%d", i) }
+// ---- names (rendering only).  A task is written under its key and may be referred to by other names:
+//
+//	plain      key t<i>        (Inc: t<i>:k)        aliases t<i>a, t<i>b   (Inc: t<i>a:k, t<i>b:k)
+//	wildcard   key t<i>-*      (Inc: t<i>:k-*)      called as t<i>-x | -y | -z
+//
+// From outside the included file (the command line) every name carries the namespace `n:`.
 
-func renderSched(d schedCase) string {
+var wildWords = []string{"x", "y", "z"}
+
+func (d schedCase) keyName(i int) string {
+	nm := fmt.Sprintf("t%d", i)
+	if d.Inc {
+		nm += ":k"
+	}
+	if i < len(d.Tasks) && d.Tasks[i].Wild {
+		nm += "-*"
+	}
+	return nm
+}
+
+func (d schedCase) aliasName(i, k int) string {
+	nm := fmt.Sprintf("t%d%c", i, 'a'+k)
+	if d.Inc {
+		nm += ":k"
+	}
+	return nm
+}
+
+// refName: the name reference number `ref` uses for task i, as written inside the file that defines the tasks
+func (d schedCase) refName(i, ref int) string {
+	if i < 0 || i >= len(d.Tasks) {
+		return fmt.Sprintf("t%d", i)
+	}
+	t := d.Tasks[i]
+	if ref < 0 {
+		ref = -ref
+	}
+	switch {
+	case t.Wild:
+		nm := fmt.Sprintf("t%d", i)
+		if d.Inc {
+			nm += ":k"
+		}
+		if t.Run == "when_changed" {
+			// the match is a variable of the task (.MATCH), so it is part of the when_changed key: keep the streams
+			// that count on a shared execution on one word; a run: once key is by name only — any word will do
+			ref = 0
+		}
+		return nm + "-" + wildWords[ref%len(wildWords)]
+	case ref > 0 && t.Aliases > 0:
+		return d.aliasName(i, (ref-1)%t.Aliases)
+	}
+	return d.keyName(i)
+}
+
+// cliName: the name the k-th command-line call uses
+func (d schedCase) cliName(k int) string {
+	ref := 0
+	if k < len(d.CallRefs) {
+		ref = d.CallRefs[k]
+	}
+	nm := d.refName(d.Calls[k], ref)
+	if d.Inc {
+		nm = "n:" + nm
+	}
+	return nm
+}
+
+func renderSched(d schedCase) (string, string) {
 	var b strings.Builder
 	b.WriteString("version: '3'\nsilent: true\ntasks:\n")
 	for i, t := range d.Tasks {
-		fmt.Fprintf(&b, "  %s:\n", tname(i))
+		fmt.Fprintf(&b, "  %q:\n", d.keyName(i))
+		if t.Aliases > 0 && !t.Wild {
+			var as []string
+			for k := 0; k < t.Aliases; k++ {
+				as = append(as, fmt.Sprintf("%q", d.aliasName(i, k)))
+			}
+			fmt.Fprintf(&b, "    aliases: [%s]\n", strings.Join(as, ", "))
+		}
 		if t.Run != "always" {
 			fmt.Fprintf(&b, "    run: %s\n", t.Run)
 		}
@@ -131,9 +217,9 @@ func renderSched(d schedCase) string {
 			b.WriteString("    deps:\n")
 			for _, dp := range t.Deps {
 				if dp.Var >= 0 {
-					fmt.Fprintf(&b, "      - task: %s\n        vars: {V: '%d'}\n", tname(dp.Task), dp.Var)
+					fmt.Fprintf(&b, "      - task: %q\n        vars: {V: '%d'}\n", d.refName(dp.Task, dp.Ref), dp.Var)
 				} else {
-					fmt.Fprintf(&b, "      - task: %s\n", tname(dp.Task))
+					fmt.Fprintf(&b, "      - task: %q\n", d.refName(dp.Task, dp.Ref))
 				}
 			}
 		}
@@ -142,12 +228,12 @@ func renderSched(d schedCase) string {
 			for _, c := range t.Cmds {
 				switch {
 				case c.Call >= 0 && c.Deferred:
-					fmt.Fprintf(&b, "      - defer: {task: %s}\n", tname(c.Call))
+					fmt.Fprintf(&b, "      - defer: {task: %q}\n", d.refName(c.Call, c.Ref))
 				case c.Call >= 0:
 					if c.Var >= 0 {
-						fmt.Fprintf(&b, "      - task: %s\n        vars: {V: '%d'}\n", tname(c.Call), c.Var)
+						fmt.Fprintf(&b, "      - task: %q\n        vars: {V: '%d'}\n", d.refName(c.Call, c.Ref), c.Var)
 					} else {
-						fmt.Fprintf(&b, "      - task: %s\n", tname(c.Call))
+						fmt.Fprintf(&b, "      - task: %q\n", d.refName(c.Call, c.Ref))
 					}
 					if c.CallIgnore {
 						b.WriteString("        ignore_error: true\n")
@@ -176,7 +262,10 @@ func renderSched(d schedCase) string {
 			}
 		}
 	}
-	return b.String()
+	if d.Inc {
+		return "version: '3'\nsilent: true\nincludes:\n  n: ./inc\n", b.String()
+	}
+	return b.String(), ""
 }
 
 var flakyNo int
@@ -264,9 +353,15 @@ func answerReader(d schedCase) io.Reader {
 	return strings.NewReader("")
 }
 
+// taskIndex: the abstract task a name (key, alias, concrete wildcard name; with or without the namespace) stands for
 func taskIndex(name string) int {
+	name = strings.TrimPrefix(name, "n:")
 	if strings.HasPrefix(name, "t") {
-		if n, err := strconv.Atoi(name[1:]); err == nil {
+		j := 1
+		for j < len(name) && name[j] >= '0' && name[j] <= '9' {
+			j++
+		}
+		if n, err := strconv.Atoi(name[1:j]); err == nil {
 			return n
 		}
 	}
@@ -276,8 +371,15 @@ func taskIndex(name string) int {
 func runSchedImpl(d schedCase, dir string) schedObs {
 	os.MkdirAll(dir, 0o755)
 	defer os.RemoveAll(dir)
-	if err := os.WriteFile(filepath.Join(dir, "Taskfile.yml"), []byte(renderSched(d)), 0o644); err != nil {
+	rootY, incY := renderSched(d)
+	if err := os.WriteFile(filepath.Join(dir, "Taskfile.yml"), []byte(rootY), 0o644); err != nil {
 		panic(err)
+	}
+	if d.Inc {
+		os.MkdirAll(filepath.Join(dir, "inc"), 0o755)
+		if err := os.WriteFile(filepath.Join(dir, "inc", "Taskfile.yml"), []byte(incY), 0o644); err != nil {
+			panic(err)
+		}
 	}
 	var stdout io.Writer = io.Discard
 	var gate *gateWriter
@@ -297,7 +399,8 @@ func runSchedImpl(d schedCase, dir string) schedObs {
 	}
 	calls := make([]*task.Call, len(d.Calls))
 	for i, c := range d.Calls {
-		calls[i] = &task.Call{Task: tname(c)}
+		_ = c
+		calls[i] = &task.Call{Task: d.cliName(i)}
 	}
 	verifhook.Reset(d.Seed, d.Jitter)
 	done := make(chan error, 1)
@@ -343,6 +446,7 @@ func runSchedImpl(d schedCase, dir string) schedObs {
 func traceTokens(o schedObs) (string, int, map[string]int) {
 	keys := map[string]int{}
 	feats := map[string]int{}
+	actTask := map[int64]int{}
 	var b strings.Builder
 	fmt.Fprintf(&b, "E %d", len(o.events))
 	for _, ev := range o.events {
@@ -351,16 +455,21 @@ func traceTokens(o schedObs) (string, int, map[string]int) {
 		switch ev.Kind {
 		case "enter":
 			kind, parent, idx, name := ev.Args[0], ev.Args[1], ev.Args[2], ev.Args[3]
+			actTask[ev.Act] = taskIndex(name)
 			if kind == "top" {
 				fmt.Fprintf(&b, " enter top %s %d", idx, taskIndex(name))
 			} else {
 				fmt.Fprintf(&b, " enter %s %s %s %d", kind, parent, idx, taskIndex(name))
 			}
 		case "register", "waiter", "waitCycle":
-			k, ok := keys[ev.Args[0]]
+			// The model's dedup keys are opaque numbers.  A key stands for (task, hash): an execution is shared
+			// by the references of ONE task, so a hash that two different tasks arrive at is two keys for the
+			// model — the second task's `waiter` then names a key nobody registered and the log is rejected.
+			ks := fmt.Sprintf("%d|%s", actTask[ev.Act], ev.Args[0])
+			k, ok := keys[ks]
 			if !ok {
 				k = len(keys)
-				keys[ev.Args[0]] = k
+				keys[ks] = k
 			}
 			fmt.Fprintf(&b, " %s %d", ev.Kind, k)
 		case "cmdStart":
@@ -526,7 +635,7 @@ func (c *Ctx) genSched(maxTasks int, cyclic bool) schedCase {
 				if r.Intn(3) == 0 {
 					v = r.Intn(2)
 				}
-				t.Deps = append(t.Deps, sDep{tg, v})
+				t.Deps = append(t.Deps, sDep{Task: tg, Var: v})
 			}
 		}
 		nc := []int{0, 1, 2, 2, 3, 4}[r.Intn(6)]
@@ -582,7 +691,7 @@ func (c *Ctx) genCycle(dedup bool) schedCase {
 		t := sTask{Run: "always", PlatformOk: true, RequiresOk: true, EnumOk: true, PrecondOk: true}
 		next := (i + 1) % k
 		if r.Intn(2) == 0 {
-			t.Deps = []sDep{{next, -1}}
+			t.Deps = []sDep{{Task: next, Var: -1}}
 			if r.Intn(2) == 0 {
 				t.Cmds = append(t.Cmds, sCmd{Call: -1, Var: -1})
 			}
@@ -631,7 +740,7 @@ func (c *Ctx) genDedupCycle(shape int) (schedCase, string) {
 			t.Run = []string{"once", "once", "when_changed"}[r.Intn(3)]
 			next := (i + 1) % k
 			if r.Intn(2) == 0 {
-				t.Deps = []sDep{{next, -1}}
+				t.Deps = []sDep{{Task: next, Var: -1}}
 				if r.Intn(2) == 0 {
 					t.Cmds = append(t.Cmds, sCmd{Call: -1, Var: -1})
 				}
@@ -664,7 +773,7 @@ func (c *Ctx) genDedupCycle(shape int) (schedCase, string) {
 			if r.Intn(2) == 0 {
 				t1.Cmds = []sCmd{{Call: 0, Var: -1}}
 			} else {
-				t1.Deps = []sDep{{0, -1}}
+				t1.Deps = []sDep{{Task: 0, Var: -1}}
 			}
 			d.Tasks = []sTask{t0, t1}
 		}
@@ -684,7 +793,7 @@ func (c *Ctx) genBarrier() schedCase {
 	d := schedCase{Cap: 1 + r.Intn(2), Jitter: []int64{0, 100}[r.Intn(2)], Seed: r.Int63(), Calls: []int{0}, Barrier: k + 1}
 	t0 := sTask{Run: "always", PlatformOk: true, RequiresOk: true, EnumOk: true, PrecondOk: true}
 	for i := 1; i <= k; i++ {
-		t0.Deps = append(t0.Deps, sDep{i, -1})
+		t0.Deps = append(t0.Deps, sDep{Task: i, Var: -1})
 	}
 	if r.Intn(2) == 0 {
 		t0.Cmds = []sCmd{{Call: -1, Var: -1}}
@@ -748,7 +857,7 @@ func (c *Ctx) genFlaky() schedCase {
 		t2.Cmds = []sCmd{{Call: 1, Var: -1}, {Call: 1, Var: -1}}
 		d.Tasks = append(d.Tasks, t2)
 		t3 := mk()
-		t3.Deps = []sDep{{0, -1}, {2, -1}}
+		t3.Deps = []sDep{{Task: 0, Var: -1}, {Task: 2, Var: -1}}
 		d.Tasks = append(d.Tasks, t3)
 		d.Calls = []int{3}
 	}
@@ -785,7 +894,7 @@ func (c *Ctx) genSharedFail() schedCase {
 		f := mk()
 		f.Cmds = []sCmd{{Call: -1, Var: -1, Code: code}}
 		fi := add(f)
-		tasks[S].Deps = []sDep{{fi, -1}}
+		tasks[S].Deps = []sDep{{Task: fi, Var: -1}}
 	case 1: // S fails through a task it calls
 		f := mk()
 		f.Cmds = []sCmd{{Call: -1, Var: -1, Code: code}}
@@ -810,7 +919,7 @@ func (c *Ctx) genSharedFail() schedCase {
 				u.Cmds = append(u.Cmds, sCmd{Call: -1, Var: -1})
 			}
 		} else {
-			u.Deps = []sDep{{target, -1}}
+			u.Deps = []sDep{{Task: target, Var: -1}}
 			if r.Intn(2) == 0 {
 				u.Cmds = append(u.Cmds, sCmd{Call: -1, Var: -1})
 			}
@@ -926,13 +1035,314 @@ func (c *Ctx) genCallIgnore() schedCase {
 		t2.Cmds = []sCmd{{Call: -1, Var: -1, Code: code}}
 		d.Tasks = []sTask{t0, t1, t2}
 	default:
-		t1.Deps = []sDep{{2, -1}}
+		t1.Deps = []sDep{{Task: 2, Var: -1}}
 		t1.Cmds = []sCmd{{Call: -1, Var: -1}}
 		t2 := mk()
 		t2.Cmds = []sCmd{{Call: -1, Var: -1, Code: code}}
 		d.Tasks = []sTask{t0, t1, t2}
 	}
 	return d
+}
+
+// decorate: the rendering choices (names) of a generated program.  The abstract program — what the model
+// sees — is unchanged: every task may get aliases or become a wildcard task, every reference (command line,
+// deps:, task: entries, deferred task calls) picks one of the callee's names at random, and one program in
+// four is written into an included Taskfile under names that contain ':' and share their last segment.
+func (c *Ctx) decorate(d *schedCase) {
+	r := c.Rng
+	d.Inc = r.Intn(4) == 0
+	for i := range d.Tasks {
+		t := &d.Tasks[i]
+		switch r.Intn(6) {
+		case 0, 1:
+			t.Aliases = 1 + r.Intn(2)
+		case 2:
+			t.Wild = true
+		}
+		for j := range t.Deps {
+			t.Deps[j].Ref = r.Intn(3)
+		}
+		for j := range t.Cmds {
+			if t.Cmds[j].Call >= 0 {
+				t.Cmds[j].Ref = r.Intn(3)
+			}
+		}
+	}
+	d.CallRefs = make([]int, len(d.Calls))
+	for k := range d.CallRefs {
+		d.CallRefs[k] = r.Intn(3)
+	}
+}
+
+func mkTask() sTask {
+	return sTask{Run: "always", PlatformOk: true, RequiresOk: true, EnumOk: true, PrecondOk: true}
+}
+
+func shOk() sCmd { return sCmd{Call: -1, Var: -1} }
+
+// genCutShort: the ONE execution of a deduplicated task S is cut short by a cancellation that is local to the
+// caller that started it — S is reached (directly or through a middle task) from the dependency group of G, in
+// which a sibling dependency F fails at once while S still has commands to run (or has not begun) — the failure
+// of G is swallowed by a tolerant ancestor T (`ignore_error: true`, `task: G`), and a caller W OUTSIDE that
+// group refers to S too: later (sequential command-line calls, a later command), or concurrently (--parallel
+// calls, a sibling dependency).  W's context is alive; it must observe that S's one execution did not succeed.
+func (c *Ctx) genCutShort() (schedCase, string) {
+	r := c.Rng
+	d := schedCase{Cap: []int{0, 0, 0, 2, 3}[r.Intn(5)], Jitter: []int64{0, 50, 300, 1000}[r.Intn(4)], Seed: r.Int63()}
+	var tasks []sTask
+	add := func(t sTask) int { tasks = append(tasks, t); return len(tasks) - 1 }
+	s := mkTask()
+	s.Run = []string{"once", "once", "when_changed"}[r.Intn(3)]
+	if r.Intn(4) == 0 {
+		s.Cmds = append(s.Cmds, sCmd{Call: -1, Var: -1, Deferred: true})
+	}
+	for k := 3 + r.Intn(3); k > 0; k-- {
+		s.Cmds = append(s.Cmds, shOk())
+	}
+	S := add(s)
+	f := mkTask()
+	f.Cmds = []sCmd{{Call: -1, Var: -1, Code: 1 + r.Intn(9)}}
+	F := add(f)
+	// the route from G's dependency group to S
+	via := S
+	if r.Intn(2) == 0 {
+		m := mkTask()
+		if r.Intn(2) == 0 {
+			m.Deps = []sDep{{Task: S, Var: -1}}
+			m.Cmds = []sCmd{shOk()}
+		} else {
+			m.Cmds = []sCmd{shOk(), {Call: S, Var: -1}, shOk()}
+		}
+		via = add(m)
+	}
+	g := mkTask()
+	g.Deps = []sDep{{Task: via, Var: -1}, {Task: F, Var: -1}}
+	if r.Intn(2) == 0 {
+		g.Deps[0], g.Deps[1] = g.Deps[1], g.Deps[0]
+	}
+	g.Cmds = []sCmd{shOk()}
+	G := add(g)
+	t := mkTask()
+	t.IgnoreError = true
+	if r.Intn(2) == 0 {
+		t.Cmds = append(t.Cmds, shOk())
+	}
+	t.Cmds = append(t.Cmds, sCmd{Call: G, Var: -1})
+	if r.Intn(2) == 0 {
+		t.Cmds = append(t.Cmds, shOk())
+	}
+	T := add(t)
+	// W: outside G's group; it reaches S as a dependency (C01) or through a task: entry (C06), after a few
+	// commands of its own or of a middle task so that G's side usually registers S first
+	w := mkTask()
+	if r.Intn(2) == 0 {
+		w.Deps = []sDep{{Task: S, Var: -1}}
+		if r.Intn(2) == 0 {
+			m := mkTask()
+			m.Cmds = []sCmd{shOk(), shOk(), {Call: S, Var: -1}}
+			w.Deps = []sDep{{Task: add(m), Var: -1}}
+		}
+		w.Cmds = []sCmd{shOk()}
+	} else {
+		for k := 1 + r.Intn(3); k > 0; k-- {
+			w.Cmds = append(w.Cmds, shOk())
+		}
+		w.Cmds = append(w.Cmds, sCmd{Call: S, Var: -1}, shOk())
+	}
+	W := add(w)
+	shape := ""
+	switch r.Intn(4) {
+	case 0:
+		shape = "sequential-calls"
+		d.Calls = []int{T, W}
+	case 1:
+		shape = "later-command"
+		root := mkTask()
+		root.Cmds = []sCmd{{Call: T, Var: -1}, {Call: W, Var: -1}, shOk()}
+		d.Calls = []int{add(root)}
+	case 2:
+		shape = "parallel-calls"
+		d.Parallel = true
+		d.Calls = [][]int{{T, W}, {W, T}}[r.Intn(2)]
+	default:
+		shape = "sibling-deps"
+		root := mkTask()
+		root.Deps = []sDep{{Task: T, Var: -1}, {Task: W, Var: -1}}
+		root.Cmds = []sCmd{shOk()}
+		d.Calls = []int{add(root)}
+	}
+	d.Tasks = tasks
+	return d, shape
+}
+
+// cutShortSeen: did an activation wait for (or find finished) a deduplicated execution that ended with an error
+// while a member of its caller's dependency group had failed — the situation genCutShort aims at?
+func cutShortSeen(evs []verifhook.Event) bool {
+	reg := map[string]int64{}
+	bad := map[int64]bool{}
+	for _, e := range evs {
+		switch e.Kind {
+		case "register":
+			reg[e.Args[0]] = e.Act
+		case "ctxErr":
+			bad[e.Act] = true
+		case "cmdEnd":
+			a := e.Args
+			if len(a) > 0 && a[0] == "deferred" {
+				continue
+			}
+			if len(a) > 1 && a[1] == "ctx" {
+				bad[e.Act] = true
+			}
+		}
+	}
+	for _, e := range evs {
+		if e.Kind == "waiter" {
+			if x, ok := reg[e.Args[0]]; ok && bad[x] {
+				return true
+			}
+		}
+	}
+	return false
+}
+
+// genGuards: several guards of ONE task fail at once (each guard outcome drawn independently with
+// probability 1/2): the order in which RunTask asks them decides the result (a task excluded by `platforms:`
+// is skipped silently whatever else is wrong with it; a missing required variable wins over a value outside
+// its enum, both over the call limit, preconditions over status / prompt).  The guarded task is a command-line
+// call, a dependency or a task: entry; some are deduplicated.
+func (c *Ctx) genGuards() schedCase {
+	r := c.Rng
+	d := schedCase{Cap: []int{0, 0, 1, 2}[r.Intn(4)], Jitter: []int64{0, 0, 200}[r.Intn(3)], Seed: r.Int63()}
+	d.Yes = r.Intn(3) == 0
+	if r.Intn(2) == 0 {
+		d.Term = true
+		d.Answer = []string{"y", "n", "eof"}[r.Intn(3)]
+	}
+	d.Force = r.Intn(6) == 0
+	d.ForceAll = r.Intn(8) == 0
+	gt := mkTask()
+	gt.PlatformOk = r.Intn(2) == 0
+	gt.RequiresOk = r.Intn(2) == 0
+	gt.EnumOk = r.Intn(2) == 0
+	gt.PrecondOk = r.Intn(2) == 0
+	gt.UpToDate = r.Intn(2) == 0
+	gt.Prompt = r.Intn(2) == 0
+	gt.Run = []string{"always", "always", "once", "when_changed"}[r.Intn(4)]
+	gt.Cmds = []sCmd{shOk()}
+	if r.Intn(3) == 0 {
+		gt.Cmds = append([]sCmd{{Call: -1, Var: -1, Deferred: true}}, gt.Cmds...)
+	}
+	if r.Intn(3) == 0 {
+		h := mkTask()
+		h.Cmds = []sCmd{shOk()}
+		d.Tasks = []sTask{gt, h}
+		d.Tasks[0].Deps = []sDep{{Task: 1, Var: -1}}
+	} else {
+		d.Tasks = []sTask{gt}
+	}
+	G := 0
+	caller := mkTask()
+	switch r.Intn(3) {
+	case 0:
+		d.Calls = []int{G}
+		if r.Intn(2) == 0 {
+			d.Calls = []int{G, G}
+		}
+	case 1:
+		caller.Deps = []sDep{{Task: G, Var: -1}}
+		caller.Cmds = []sCmd{shOk()}
+		d.Tasks = append(d.Tasks, caller)
+		d.Calls = []int{len(d.Tasks) - 1}
+	default:
+		caller.Cmds = []sCmd{shOk(), {Call: G, Var: -1}, shOk()}
+		if r.Intn(2) == 0 {
+			caller.Cmds = append(caller.Cmds, sCmd{Call: G, Var: -1})
+		}
+		d.Tasks = append(d.Tasks, caller)
+		d.Calls = []int{len(d.Tasks) - 1}
+	}
+	return d
+}
+
+// genPromptSlots: tasks whose prompt is confirmed (--yes, or a terminal answering "y") under a concurrency
+// limit, with other work competing for the slots: several command-line calls under --parallel, sibling
+// dependencies, nested task: calls and dependencies below the prompted task.  A task holds its slot while it
+// asks and while its commands run (the bound and the release/acquire pairing are read off the log).
+func (c *Ctx) genPromptSlots() schedCase {
+	r := c.Rng
+	d := schedCase{Cap: 1 + r.Intn(2), Jitter: []int64{0, 100, 500}[r.Intn(3)], Seed: r.Int63()}
+	if r.Intn(2) == 0 {
+		d.Yes = true
+	} else {
+		d.Term, d.Answer = true, "y"
+	}
+	leaf := mkTask()
+	leaf.Cmds = []sCmd{shOk()}
+	d.Tasks = []sTask{leaf}
+	k := 2 + r.Intn(2)
+	var tops []int
+	for i := 0; i < k; i++ {
+		t := mkTask()
+		t.Prompt = r.Intn(3) > 0
+		t.Cmds = []sCmd{shOk()}
+		switch r.Intn(3) {
+		case 0:
+			t.Cmds = append(t.Cmds, sCmd{Call: 0, Var: -1}, shOk())
+		case 1:
+			t.Deps = []sDep{{Task: 0, Var: -1}}
+		default:
+			t.Cmds = append(t.Cmds, shOk())
+		}
+		d.Tasks = append(d.Tasks, t)
+		tops = append(tops, len(d.Tasks)-1)
+	}
+	if r.Intn(2) == 0 {
+		d.Parallel = true
+		d.Calls = tops
+	} else {
+		root := mkTask()
+		for _, t := range tops {
+			root.Deps = append(root.Deps, sDep{Task: t, Var: -1})
+		}
+		root.Cmds = []sCmd{shOk()}
+		d.Tasks = append(d.Tasks, root)
+		d.Calls = []int{len(d.Tasks) - 1}
+	}
+	return d
+}
+
+// renderHits: which kinds of names the activations of the run were called by
+func (c *Ctx) renderHits(d schedCase, o schedObs) {
+	for _, e := range o.events {
+		if e.Kind != "enter" {
+			continue
+		}
+		i := taskIndex(e.Args[3])
+		if i < 0 || i >= len(d.Tasks) {
+			continue
+		}
+		name := strings.TrimPrefix(e.Args[3], "n:")
+		t := d.Tasks[i]
+		hasDefer := false
+		for _, cm := range t.Cmds {
+			if cm.Deferred {
+				hasDefer = true
+			}
+		}
+		switch {
+		case t.Wild:
+			c.Hit("render:called-as-wildcard-match")
+			if hasDefer {
+				c.Hit("render:task-with-defer-called-as-wildcard-match")
+			}
+		case name != d.keyName(i):
+			c.Hit("render:called-by-alias")
+			if hasDefer {
+				c.Hit("render:task-with-defer-called-by-alias")
+			}
+		}
+	}
 }
 
 func hasCycleThroughDedup(d schedCase) bool {
@@ -1013,9 +1423,20 @@ func runSched(c *Ctx) {
 		} else if i%10 == 5 {
 			d = c.genSharedFail()
 			c.Hit("stream:shared-fail")
+		} else if i%10 == 9 {
+			var shape string
+			d, shape = c.genCutShort()
+			c.Hit("stream:cut-short:" + shape)
+		} else if i%20 == 1 {
+			d = c.genGuards()
+			c.Hit("stream:guard-pairs")
+		} else if i%20 == 11 {
+			d = c.genPromptSlots()
+			c.Hit("stream:prompt-slots")
 		} else {
 			d = c.genSched(c.Pick(7, 10), false)
 		}
+		c.decorate(&d)
 		for s := 0; s < sched && !(cyclic && s > 0); s++ {
 			d.Seed = c.Rng.Int63()
 			if s > 0 && !cyclic && d.Barrier == 0 {
@@ -1045,6 +1466,13 @@ func runSched(c *Ctx) {
 			if cyclic {
 				c.Hit("cyclic")
 			}
+			if cutShortSeen(o.events) {
+				c.Hit("c06:waiter-of-cut-short-execution")
+			}
+			if d.Inc {
+				c.Hit("render:included-colon-names")
+			}
+			c.renderHits(d, o)
 			if maxAlive(o.events) >= 2 || kinds["waiter"] || kinds["precondFail"] || kinds["promptFail"] || kinds["upToDate"] || o.result != "ok" {
 				c.Distinct(schedKey(d, o))
 			}
@@ -1060,6 +1488,7 @@ func runSched(c *Ctx) {
 	// reference cycles through run: once / when_changed tasks: the wait that would close the cycle is refused
 	for i := 0; i < c.Pick(9, 60) && hangs < 3; i++ {
 		d, shape := c.genDedupCycle(i % 3)
+		c.decorate(&d)
 		cl, il, o := evalSched(d)
 		if o.hang {
 			hangs++
